@@ -314,3 +314,10 @@ pub proof fn thm_stream_in_order(es: Seq<Event>, st: St)
 }
 // vacuity canary: must fail
 proof fn canary_sse() { assert(false); }
+// an event's block is never empty (it has at least one data field)
+pub proof fn lemma_enc_nonempty(e: Event)
+    ensures enc(e).len() > 0
+{
+    lemma_lines_nonempty(ev_data(e));
+    lemma_fields_len(lines_of(ev_data(e)));
+}
